@@ -5,6 +5,7 @@
     pp_grammar      record bodies drawn from pharmpy's own lark grammars (hypothesis.extra.lark) wrapped as `$REC body`
     pp_layout       $THETA/$OMEGA/$SIGMA record layouts (pv.gen.gen_layout) + noise
     pp_corpus       line/character-level mutation of the checked-in control streams (read at run time)
+    pp_text         literal texts: replay target for findings of tools/fuzz_c03.py (plus short random texts)
 (b) noop / noop_corpus
                     read_model_from_string(T).code == T and .update_source().code == T
 (c) frame / frame_corpus
@@ -25,12 +26,29 @@ import warnings
 
 from hypothesis import strategies as st
 
-from ..core import REPO_DIR, CaseInfo, HarnessError, Reject, SubCheck, Violation, guard, innermost_pharmpy_frame
+from ..core import REPO_DIR, CaseInfo, HarnessError, Reject, SubCheck, guard, innermost_pharmpy_frame
+from ..core import Violation as _Violation
 from ..gen import gen_layout as GL
 from ..gen import gen_noise as N
 from ..ref import nmsplit as S
 from ..ref import nmtran as R
 from . import c01
+
+
+
+def _vis(x):
+    """NUL bytes are part of many cases here; they are shown as <NUL> in messages (terminals and grep choke on them)"""
+    if isinstance(x, str):
+        return x.replace('\x00', '<NUL>')
+    if isinstance(x, (list, tuple)):
+        return [_vis(y) for y in x]
+    return x
+
+
+class Violation(_Violation):
+    def __init__(self, clause, observed=None, expected=None, detail=''):
+        super().__init__(clause, observed=_vis(observed), expected=_vis(expected), detail=_vis(detail))
+
 
 PROPERTY = 'C03'
 LEVEL = 'exploration'
@@ -66,7 +84,8 @@ XFLAGS = ['theta_inf', 'scaled_blocks', 'abbr_replace', 'abbr_opt', 'table', 'ta
 X = st.fixed_dictionaries({f: st.booleans() for f in XFLAGS})
 MODEL_SPEC = st.one_of(c01.PRED_SPEC, c01.ADVAN_SPEC)
 STREAM_SPEC = st.fixed_dictionaries(dict(m=MODEL_SPEC, x=X, ops=N.OPS))
-EDIT = st.tuples(st.integers(0, 40), st.integers(0, 40), st.integers(0, 40)).map(list)
+# kind of edit (see apply_edit): drawn uniformly, the edits of code records (12-15) twice as often
+EDIT = st.tuples(st.sampled_from(list(range(16)) + [12, 13, 14, 14, 15]), st.integers(0, 40), st.integers(0, 40)).map(list)
 FRAME_SPEC = st.fixed_dictionaries(dict(m=MODEL_SPEC, x=X, ops=N.OPS, edit=EDIT))
 
 
@@ -348,6 +367,12 @@ def grammar_text(spec):
 def run_pp_grammar(spec):
     cls, text = grammar_text(spec)
     return check_parse_print(text, ('grammar:' + cls,))
+
+
+def run_pp_text(spec):
+    """a literal text (replay target of tools/fuzz_c03.py; random short texts as a by-product)"""
+    text = spec.get('text', '')
+    return check_parse_print(text if isinstance(text, str) else '')
 
 
 CORPUS_SPEC = st.fixed_dictionaries(dict(file=st.integers(0, 999), ops=st.lists(N.OP, min_size=0, max_size=6)))
@@ -903,7 +928,7 @@ def theta_owner(text, k):
         body = re.sub(r'^[ \t]*\$[A-Za-z]*', '', chunk, count=1)
         try:
             n = len(R.parse_theta_record(body))
-        except (R.NMSyntaxError, R.Unsupported, ValueError):
+        except Exception:  # noqa: reference does not understand the layout
             return None
         if pos <= k < pos + n:
             return i, k - pos
@@ -1058,7 +1083,13 @@ def run_frame_corpus(spec):
 # ------------------------------------------------------------------------------------------
 # known-finding predicates / self check
 
-KNOWN_PREDICATES = {}
+def _pred_des_model(spec):
+    """the (unmutated) checked-in model of the spec has a $DES record"""
+    name, text = corpus_text(spec.get('file', 0))
+    return any(r.kind == 'DES' for r in S.split_exact(text))
+
+
+KNOWN_PREDICATES = {'des_model': _pred_des_model}
 
 
 def selfcheck():
@@ -1101,12 +1132,13 @@ def selfcheck():
 
 
 SUBCHECKS = [
-    SubCheck('pp_stream', lambda: STREAM_SPEC, run_pp_stream, quick=1600, thorough=60000),
-    SubCheck('pp_grammar', grammar_strategy, run_pp_grammar, quick=4000, thorough=200000),
-    SubCheck('pp_layout', lambda: LAYOUT_SPEC, run_pp_layout, quick=1500, thorough=60000),
-    SubCheck('pp_corpus', lambda: CORPUS_SPEC, run_pp_corpus, quick=1200, thorough=60000, enumerate=enum_corpus),
-    SubCheck('noop', lambda: STREAM_SPEC, run_noop, quick=400, thorough=8000, quick_time=240, thorough_time=3000),
-    SubCheck('noop_corpus', lambda: NOOP_CORPUS_SPEC, run_noop_corpus, quick=96, thorough=3000, enumerate=enum_corpus, quick_time=240, thorough_time=3000),
-    SubCheck('frame', lambda: FRAME_SPEC, run_frame, quick=640, thorough=14000, quick_time=240, thorough_time=3000),
-    SubCheck('frame_corpus', lambda: FRAME_CORPUS_SPEC, run_frame_corpus, quick=160, thorough=5000, quick_time=240, thorough_time=3000),
+    SubCheck('pp_stream', lambda: STREAM_SPEC, run_pp_stream, quick=1200, thorough=20000),
+    SubCheck('pp_grammar', grammar_strategy, run_pp_grammar, quick=3200, thorough=120000),
+    SubCheck('pp_layout', lambda: LAYOUT_SPEC, run_pp_layout, quick=1000, thorough=40000),
+    SubCheck('pp_corpus', lambda: CORPUS_SPEC, run_pp_corpus, quick=800, thorough=30000, enumerate=enum_corpus),
+    SubCheck('pp_text', lambda: st.fixed_dictionaries(dict(text=st.text(alphabet=st.sampled_from(sorted(set(ALPHABET))), max_size=60))), run_pp_text, quick=400, thorough=20000),
+    SubCheck('noop', lambda: STREAM_SPEC, run_noop, quick=320, thorough=4000, quick_time=240, thorough_time=3000),
+    SubCheck('noop_corpus', lambda: NOOP_CORPUS_SPEC, run_noop_corpus, quick=64, thorough=1500, enumerate=enum_corpus, quick_time=240, thorough_time=3000),
+    SubCheck('frame', lambda: FRAME_SPEC, run_frame, quick=560, thorough=7000, quick_time=240, thorough_time=3000),
+    SubCheck('frame_corpus', lambda: FRAME_CORPUS_SPEC, run_frame_corpus, quick=128, thorough=2500, quick_time=240, thorough_time=3000),
 ]
